@@ -230,5 +230,7 @@ async fn renew_certificate(
 			certificate.warn(&e.message);
 		}
 	};
+	#[cfg(feature = "breard_r_acmed_verif")]
+	crate::verif::trace::attempt_end(&certificate.get_id(), is_success);
 	(certificate, account_s.clone(), endpoint_s.clone())
 }
